@@ -531,6 +531,116 @@ def gen_model_level(tier):
     yield from hand(g, ("sorted-cells",), ['S = m.new_space("S")', 'S.new_cells("b", formula="lambda: 1")', 'S.new_cells("a", formula="lambda: 2")', "S.sort_cells()"], "sorted-cells")
 
 
+PREFIX_PAIRS = [("c1", "c10"), ("prem", "prem_rate"), ("d", "data")]
+
+
+def gen_name_prefixes(tier):
+    """G10: sibling names of which one is a proper string PREFIX of the other (c1 / c10, prem / prem_rate, S / S1,
+    r / r1), where the members differ in what the writer stores for them (input values, pickled values, child
+    directories).  A container that is queried by path must keep the two apart: every per-name file or
+    directory of the one exists next to none (or a different one) of the other."""
+    g = "name-prefix"
+    F = {"short": "lambda x: x + 1", "long": "def %s(x):\\n    return 2 * x"}
+    holders_all = ("long", "short", "both", "none")
+    for short, long_ in PREFIX_PAIRS:
+        secondary = tier == "quick" and (short, long_) != PREFIX_PAIRS[0]
+        mk = {"short": '%%s.new_cells(%r, formula="%s")' % (short, F["short"]),
+              "long": '%%s.new_cells(%r, formula="%s")' % (long_, F["long"] % long_)}
+        name = {"short": short, "long": long_}
+
+        def inputs(holder, sp, value="%d"):
+            ks = {"long": ["long"], "short": ["short"], "both": ["long", "short"], "none": []}[holder]
+            return ["%s.%s[%d] = %s" % (sp, name[k], i + 1, value % (50 + i) if "%" in value else value)
+                    for k in ks for i in range(2)]
+
+        # -- a. both cells defined in one space; who holds inputs x creation order
+        for holder in holders_all:
+            for order in (("short", "long"), ("long", "short")):
+                if secondary and (holder == "none" or order[0] == "long"):
+                    continue
+                lines = ['S = m.new_space("S")'] + [mk[k] % "S" for k in order] + inputs(holder, "S")
+                yield from hand(g, ("cells", short, holder, order[0] + "-first"), lines,
+                                "name-prefix:cells", "prefix-data-in:" + holder, "prefix-order:%s-first" % order[0],
+                                "cells:lambda", "cells:def", *(["input"] if holder != "none" else []),
+                                eval_both=(holder == "long" and not secondary))
+        # -- b. pickled (non literal) input values, three names in a chain, a third cells between them
+        if not secondary:
+            for holder in ("long", "short"):
+                lines = (['S = m.new_space("S")', mk["short"] % "S", 'S.new_cells("mid", formula="lambda x: 0")', mk["long"] % "S"]
+                         + inputs(holder, "S", value="Box([1, 2], S)"))
+                yield from hand(g, ("cells-pickled-input", short, holder), lines, "name-prefix:cells", "prefix-data-in:" + holder,
+                                "input", "input-value:box-of-mx")
+            lines = ['S = m.new_space("S")'] + ['S.new_cells(%r, formula="lambda x: x + %d")' % (short + "0" * i, i) for i in range(3)]
+            for k in range(3):
+                yield from hand(g, ("cells-chain", short, k), lines + ["S.%s[1] = 7" % (short + "0" * k)],
+                                "name-prefix:cells", "prefix-chain", "prefix-data-in:%d-of-3" % k, "input")
+        # -- c. derived cells: the pair is defined in a base; inputs in the base / in the sub / in an overriding cells of the sub
+        for where in ("sub", "base", "sub-override", "base-and-sub"):
+            for holder in (("long", "short") if secondary else ("long", "short", "both")):
+                lines = ['B = m.new_space("B")', mk["short"] % "B", mk["long"] % "B"]
+                tags = ["name-prefix:cells", "derived-cells", "inherit:single", "prefix-data-in:" + holder, "prefix-data-at:" + where, "input"]
+                if where == "base":
+                    lines += inputs(holder, "B") + ['D = m.new_space("D", bases=B)']
+                elif where == "sub":
+                    lines += ['D = m.new_space("D", bases=B)'] + inputs(holder, "D")
+                elif where == "base-and-sub":       # the base holds inputs for the one, the sub for the other name
+                    other = {"long": "short", "short": "long", "both": "both"}[holder]
+                    lines += inputs(holder, "B") + ['D = m.new_space("D", bases=B)'] + inputs(other, "D", value="%d + 100")
+                else:                                # the holder(s) are overridden (defined) in the sub, the other one stays derived
+                    lines += ['D = m.new_space("D", bases=B)']
+                    for k in (["long", "short"] if holder == "both" else [holder]):
+                        lines.append('D.%s.formula = "lambda x: 3 * x"' % name[k])
+                    lines += inputs(holder, "D")
+                    tags.append("inherit:override")
+                yield from hand(g, ("derived", short, where, holder), lines, *tags)
+        # -- d. inputs held inside ItemSpaces (and next to static inputs)
+        for holder in ("long", "short"):
+            if secondary and holder == "short":
+                continue
+            lines = ['T = m.new_space("T", formula="lambda i: None")', mk["short"] % "T", mk["long"] % "T",
+                     "T[1].%s[2] = 7" % name[holder], "T[2].%s[2] = 8" % name[holder]]
+            yield from hand(g, ("itemspace", short, holder), lines, "name-prefix:cells", "itemspace-input", "prefix-data-in:" + holder)
+            yield from hand(g, ("itemspace+static", short, holder), lines + ["T.%s[3] = 9" % name[holder]],
+                            "name-prefix:cells", "itemspace-input", "input", "prefix-data-in:" + holder)
+    # -- e. spaces: S / S1 as siblings at the top and nested; which of them holds child spaces / cells with inputs
+    fill = {"empty": [], "cells": ['%(v)s.new_cells("f", formula="lambda x: x")'],
+            "inputs": ['%(v)s.new_cells("f", formula="lambda x: x")', "%(v)s.f[1] = 5"],
+            "child": ['%(v)s_K = %(v)s.new_space("K")', '%(v)s_K.new_cells("k", formula="lambda x: x")', "%(v)s_K.k[1] = 6"],
+            "child-prefix": ['%(v)s_K = %(v)s.new_space("S")', '%(v)s_K1 = %(v)s.new_space("S10")',
+                             '%(v)s_K1.new_cells("k", formula="lambda x: x")', "%(v)s_K1.k[1] = 6"]}
+    for level in ("top", "nested"):
+        for a, b in itertools.product(fill, fill):
+            if a == b and a != "inputs":
+                continue
+            if tier == "quick" and level == "nested" and "empty" not in (a, b):
+                continue
+            par = "m" if level == "top" else "P"
+            lines = (['P = m.new_space("P")'] if level == "nested" else []) + \
+                ['S = %s.new_space("S")' % par, 'S1 = %s.new_space("S1")' % par] + \
+                [l % {"v": "S"} for l in fill[a]] + [l % {"v": "S1"} for l in fill[b]]
+            yield from hand(g, ("spaces", level, a, b), lines, "name-prefix:spaces", "prefix-at:" + level,
+                            "prefix-short-holds:" + a, "prefix-long-holds:" + b, *(["input"] if "inputs" in (a, b) else []))
+    # a space and a cells / reference of its parent sharing a prefix
+    yield from hand(g, ("space-vs-cells",), ['S = m.new_space("S")', 'S.new_cells("ab", formula="lambda x: x")', 'K = S.new_space("abc")',
+                                             'K.new_cells("ab", formula="lambda x: x")', "K.ab[1] = 5", 'S.new_space("a")'],
+                    "name-prefix:space-vs-cells", "input")
+    yield from hand(g, ("space-vs-cells", "inputs-in-parent"), ['S = m.new_space("S")', 'S.new_cells("abc", formula="lambda x: x")', "S.abc[1] = 5",
+                                                                'K = S.new_space("ab")', 'K.new_cells("a", formula="lambda x: x")'],
+                    "name-prefix:space-vs-cells", "input")
+    # -- f. references r / r1 / r10: literal, pickled and modelx-object values in every arrangement
+    vals = {"lit": "7", "pkl": "[1, (2, 3)]", "obj": "T", "box": "Box(T.t, [1])"}
+    for holder, htag in (("m", "model"), ("S", "space"), ("C", "nested-space")):
+        for a, b in itertools.permutations(vals, 2):
+            if tier == "quick" and (htag == "nested-space" or (htag == "model" and "box" in (a, b))):
+                continue
+            lines = REF_SCAFFOLD + ["%s.r = %s" % (holder, vals[a]), "%s.r1 = %s" % (holder, vals[b]), "%s.r10 = %s" % (holder, vals[a])]
+            yield from hand(g, ("refs", htag, a, b), lines, "name-prefix:refs", "ref-at:" + htag, "prefix-short-ref:" + a, "prefix-long-ref:" + b)
+    # a reference, a cells and a space sharing prefixes in one space
+    yield from hand(g, ("mixed-members",), REF_SCAFFOLD + ["S.fx = [1, 2]", 'S.new_cells("fxy", formula="lambda x: fx[0] + x")', "S.fxy[1] = 5",
+                                                          'S.new_space("fxyz")', "S.f[1] = 0"],
+                    "name-prefix:mixed", "input")
+
+
 KITCHEN = M0 + [
     'm.doc = "model doc"', "m.g1 = 1.5", 'm.g2 = {"a": (1, 2)}',
     'S = m.new_space("S")', 'S.doc = "space S"', 'C = S.new_space("C")', 'T = m.new_space("T", formula="lambda i, j=2: None")',
@@ -674,8 +784,8 @@ def report(res, key, lines, ctags, fails):
                  script=L.make_script(lines), case=key)
 
 
-GENERATORS = [gen_kitchen, gen_inheritance, gen_params, gen_model_level, gen_inputs, gen_docs_at, gen_cells_attrs, gen_refs,
-              gen_objref_matrix, gen_syntax]
+GENERATORS = [gen_kitchen, gen_inheritance, gen_params, gen_model_level, gen_inputs, gen_name_prefixes, gen_docs_at, gen_cells_attrs,
+              gen_refs, gen_objref_matrix, gen_syntax]
 PRODUCT_GROUPS = {"cells-attrs", "refs", "objref-matrix", "syntax", "docs-at"}
 
 
@@ -686,6 +796,10 @@ def run(res, tier, seed):
                  "objects / modelx objects) x {model, space, nested space} x {assignment, auto, absolute, relative}; object references "
                  "holder x target x mode over a 3-level tree; 40 inheritance recipes; 60 parameter-formula / ItemSpace-input recipes; "
                  "input arity 0-3 x formula form x value kind, key kinds; 36 formula texts x 4 followers x flags; model-level properties; "
+                 "name-prefix pairs (c1/c10, prem/prem_rate, d/data; S/S1; r/r1/r10): cells x who holds inputs {long, short, both, none} x "
+                 "creation order, pickled inputs, 3-name chains, derived pairs with inputs in base / sub / overriding cells, ItemSpace "
+                 "inputs; sibling spaces top/nested x content of each {empty, cells, inputs, child, prefixed children}; references "
+                 "x value class of each {literal, pickled, object, container of objects} x holder; "
                  "both containers, up to 7 reads and 6 writes per case (chains dir->dir, zip->zip, dir->zip, after evaluation; quick: second-generation reads only for the hand-written groups)"
                  + ("; plus seeded random combinations of 3-7 features" if tier == "thorough" else "; reduced products (quick)"))
     res.rule = ("one case = one recipe (scaffold + one feature block, or hand-written recipe) x evaluate-before-writing flag; a case is "
